@@ -65,7 +65,7 @@ CHECKS = {
             SK + "c17_admission, c17_sells_get_smaller_ids, c17_ids_grow_with_admission, c17_fills_in_book_order, c17_book_sorted_always hold for every permutation of the buffer that puts sells first. slice::sort_by with this first-argument-only comparator is outside sort_by's contract, so Model/Sort.v transcribes what the installed std (rustc 1.95.0) does, function by function (insertion_sort_shift_left up to 20; driftsort: run detection, powersort merge tree, logical merges, merge through scratch, stable quicksort with pivot selection and the equal-partition branch, small_sort_general, the order-violation panic), generic in element type, comparator and size_of; Props/C17sort.v: the result is a permutation (c17s_result_is_permutation), sells first (c17s_sells_first), the sort never panics for this comparator (c17s_total), closed form up to 20 (sells reversed, then buys), and the oracle-free tick refines the oracle tick (c17s_tick_std_refines, c17s_run_std_refines) and never rejects. Every admission of every trace is compared with the model's exact order (aspect sort_exact, size_of::<Order>() as observed), and every observed exchange state must satisfy the invariant of the model's reachable states (book sorted by id, ids below the counter) that the per-tick theorems assume; thorough tier: sortval/run.sh compares the model with the real sort_by on 30 000+ inputs, nine comparator families (inconsistent ones included).",
             TB + "The transcription of std's sort is tied to the installed toolchain by the validation (32 075 of 32 075 inputs identical, re-run in the thorough tier) and by the per-run exact-order comparison; a different std version could sort differently, which those comparisons would show.", "3/C17, 8.6"),
     "C18": ("Coq proof (concrete Jura decision + lifecycle through the master tick lemma, every Num F) + step-wise bit-exact correspondence",
-            "c18_ioc_first_attempt / _after_attempt / _lifecycle_*, c18_gtc, c18_trigger_decision (against independent ShouldFire), c18_trigger_lifecycle (child: fresh id, announced, not fillable on the same tick), c18_fill_fields.",
+            "c18_ioc_first_attempt / _after_attempt / _lifecycle_*, c18_gtc, c18_trigger_decision (against independent ShouldFire), c18_trigger_lifecycle (child: fresh id, announced, not fillable on the same tick), c18_fill_fields. Over WHOLE HISTORIES (Props/C18history.v), with a ghost count of quoted ticks per resting order kept alongside the run and defined independently of the exchange's flag: an IOC fill happens only on the first tick since admission that quotes its asset (c18h_ioc_fills_only_at_first_quoted_tick), otherwise it is marked, dropped at the next quoted tick and never fills later; a trigger order never fills at any point of any history; an announced child is fresh, rests, and fills only strictly later; a GTC limit rests until its condition holds on a quoted tick.",
             TB + "limit_px / sz strings are modelled by their parse::<f64>() value (observed); Alo and unparsable strings are modelled as panics and excluded by premise.", "3/C18"),
     "C19": ("Coq proof, unbounded in Z: date-only lemma; spec equivalence by a complete vm_compute sweep of one 400-year period (146 097 days) lifted to every day by periodicity of the Gregorian calendar; exhaustive model/code comparison on that period plus blocks across the time crate's range",
             "c19_date_only and c19_spec for EVERY timestamp (pre-1970 included); c19_calendar_epoch / c19_calendar_next characterise the model's calendar as the proleptic Gregorian one on every day; c19_calendar_period (400 years = 146 097 days = whole weeks). Every run compares the model with the time crate and schedule/mod.rs on every day 1970-2369 at several times of day and on blocks spread over years -9999..9999 (negative timestamps at non-midnight times), reads the property directly with Python's calendar, and asks every question again after queries about neighbouring years and months (the answer must be a function of its argument).",
